@@ -764,66 +764,74 @@ def quad(x, P, w):
 
 def conformance():
     """the linear-algebra models against numpy on rational matrices (every triangular / transposed variant, several right-hand
-    sides, batches): returns the list of disagreements"""
+    sides, a batch): returns the list of disagreements.  A fresh tower per case keeps the nesting of roots shallow."""
     bad = []
-    T = Tower(["unused"])
     rnd = random.Random(7)
 
     def mat(n, m):
         return [[Fraction(rnd.randint(-5, 5), rnd.randint(1, 3)) for _ in range(m)] for _ in range(n)]
 
-    def lift(rows):
+    def lift(T, rows):
         a = np.empty((len(rows), len(rows[0])), dtype=object)
         for i, r in enumerate(rows):
             for j, v in enumerate(r):
                 a[i, j] = RE.coerce(T, v)
         return a
 
-    def num(a):
+    def num(T, a):
         pt = T.numeric_point(0)
-        return np.array([[float(x.evalf(pt)) if isinstance(x, RE) else float(x) for x in row] for row in np.asarray(a, dtype=object).reshape(np.shape(a)[0], -1)], dtype=float).reshape(np.shape(a))
+        a = np.asarray(a, dtype=object)
+        out = np.empty(a.shape, dtype=float)
+        for idx in itertools.product(*map(range, a.shape)):
+            x = a[idx]
+            out[idx] = float(x.evalf(pt)) if isinstance(x, RE) else float(x)
+        return out
 
-    ops_ = OpsReal(T, qr_signs=(1, 1, 1))
-    for n in (1, 2, 3):
+    for n in (1, 2):
         for m in (1, 2):
+            T = Tower(["unused"])
+            ops_ = OpsReal(T)
             B0 = mat(n, n + 1)
             A = [[sum(B0[i][k] * B0[j][k] for k in range(n + 1)) for j in range(n)] for i in range(n)]
             Af = np.array(A, dtype=float)
-            L = ops_.cholesky(lift(A))
+            L = ops_.cholesky(lift(T, A))
             Lf = np.linalg.cholesky(Af)
-            if not np.allclose(num(L), Lf):
+            if not np.allclose(num(T, L), Lf):
                 bad.append(("cholesky", n))
             rhs = mat(n, m)
             Rf = np.array(rhs, dtype=float)
             for upper, transpose in ((False, False), (False, True)):
-                X = ops_.triangular_solve(lift(rhs), L, upper=upper, transpose=transpose)
+                X = ops_.triangular_solve(lift(T, rhs), L, upper=upper, transpose=transpose)
                 M = Lf.T if transpose else Lf
-                if not np.allclose(num(X), np.linalg.solve(M, Rf)):
+                if not np.allclose(num(T, X), np.linalg.solve(M, Rf)):
                     bad.append(("triangular_solve", n, m, upper, transpose))
-            U = np.swapaxes(L, -1, -2)
-            X = ops_.triangular_solve(lift(rhs), U, upper=True)
-            if not np.allclose(num(X), np.linalg.solve(Lf.T, Rf)):
+            X = ops_.triangular_solve(lift(T, rhs), np.swapaxes(L, -1, -2), upper=True)
+            if not np.allclose(num(T, X), np.linalg.solve(Lf.T, Rf)):
                 bad.append(("triangular_solve-upper", n, m))
-            X = ops_.cholesky_solve(lift(rhs), L)
-            if not np.allclose(num(X), np.linalg.solve(Af, Rf)):
+            X = ops_.cholesky_solve(lift(T, rhs), L)
+            if not np.allclose(num(T, X), np.linalg.solve(Af, Rf)):
                 bad.append(("cholesky_solve", n, m))
-            if not np.allclose(num(ops_.cholesky_inverse(L)), np.linalg.inv(Af)):
-                bad.append(("cholesky_inverse", n))
-            if not np.allclose(num(ops_.triangular_inv(L)), np.linalg.inv(Lf)):
-                bad.append(("triangular_inv", n))
-            if not np.allclose(num(solve_spd(lift(A), lift(rhs))), np.linalg.solve(Af, Rf)):
-                bad.append(("solve_spd", n, m))
-            if abs(float(det_spd(lift(A)).evalf(T.numeric_point(0))) - np.linalg.det(Af)) > 1e-8 * (1 + abs(np.linalg.det(Af))):
-                bad.append(("det_spd", n))
+            if m == 1:
+                if not np.allclose(num(T, ops_.cholesky_inverse(L)), np.linalg.inv(Af)):
+                    bad.append(("cholesky_inverse", n))
+                if not np.allclose(num(T, ops_.triangular_inv(L)), np.linalg.inv(Lf)):
+                    bad.append(("triangular_inv", n))
+                if not np.allclose(num(T, solve_spd(lift(T, A), lift(T, rhs))), np.linalg.solve(Af, Rf)):
+                    bad.append(("solve_spd", n, m))
+                if abs(float(det_spd(lift(T, A)).evalf(T.numeric_point(0))) - np.linalg.det(Af)) > 1e-8 * (1 + abs(np.linalg.det(Af))):
+                    bad.append(("det_spd", n))
+        T = Tower(["unused"])
+        ops_ = OpsReal(T, qr_signs=(1, -1))
         tall = mat(n + 1, n)
-        Q, R_ = ops_.qr(lift(tall))
-        Qf, Rf_ = num(Q), num(R_)
+        Q, R_ = ops_.qr(lift(T, tall))
+        Qf, Rf_ = num(T, Q), num(T, R_)
         if not (np.allclose(Qf @ Rf_, np.array(tall, dtype=float)) and np.allclose(Qf.T @ Qf, np.eye(n)) and np.allclose(Rf_, np.triu(Rf_))):
             bad.append(("qr", n))
-    # batched call and the formal log / exp terms
-    Ab = np.stack([lift([[Fraction(4), Fraction(2)], [Fraction(2), Fraction(3)]]), lift([[Fraction(9), Fraction(0)], [Fraction(0), Fraction(1)]])])
+    T = Tower(["unused"])
+    ops_ = OpsReal(T)
+    Ab = np.stack([lift(T, [[Fraction(4), Fraction(2)], [Fraction(2), Fraction(3)]]), lift(T, [[Fraction(9), Fraction(0)], [Fraction(0), Fraction(1)]])])
     Lb = ops_.cholesky(Ab)
-    if Lb.shape != (2, 2, 2) or not np.allclose(num(Lb[1]), np.linalg.cholesky(np.array([[9.0, 0.0], [0.0, 1.0]]))):
+    if Lb.shape != (2, 2, 2) or not np.allclose(num(T, Lb[1]), np.linalg.cholesky(np.array([[9.0, 0.0], [0.0, 1.0]]))):
         bad.append(("cholesky-batched",))
     return bad
 
